@@ -648,3 +648,23 @@ Proof.
     unfold holds_b, writer_is in HU. rewrite EW in HU. destruct (Nat.eqb_spec t u); [congruence|]. cbn [orb] in HU.
     specialize (R l). unfold xwf in R. rewrite EW in R. rewrite R in HU by discriminate. discriminate.
 Qed.
+
+(* ---------------------------------------------------------------- nothing stays held (C05 / C11 on every schedule) *)
+(* when every thread has finished — normally, or after panics inside closures or with live guards — every lock is free *)
+Theorem every_schedule_all_released b sched l :
+  wfB b = true ->
+  let sc := bs_sc b in
+  let s := fst (run_sched (bs_wp b) (sc_env sc) (sc_nlocks sc) (binit b) sched) in
+  all_over s = true -> l < sc_nlocks sc -> w_raw (b_w s) l = raw_free.
+Proof.
+  intros W sc s AO Ll. pose proof (every_schedule_stable_dec b sched W) as SS. fold sc in SS. fold s in SS.
+  assert (NL : forall u, ~ live s u).
+  { intros u [Lu Ou]. unfold all_over in AO. rewrite forallb_forall in AO.
+    assert (In (get_thr (b_thr s) u) (b_thr s)) by (unfold get_thr; now apply nth_In).
+    rewrite (AO _ H) in Ou. discriminate. }
+  assert (NH : forall u, ~ holds (sc_nlocks sc) (b_w s) u l).
+  { intros u Hh. apply (NL u). eapply ss_holders; eassumption. }
+  destruct (w_raw (b_w s) l) as [wr rd] eqn:E. unfold raw_free. f_equal.
+  - destruct wr as [u|]; [|reflexivity]. exfalso. apply (NH u). split; [exact Ll|]. left. unfold writer_is. rewrite E. cbn. apply Nat.eqb_refl.
+  - destruct rd as [|u r]; [reflexivity|]. exfalso. apply (NH u). split; [exact Ll|]. right. rewrite E. cbn. now rewrite Nat.eqb_refl.
+Qed.
